@@ -19,11 +19,15 @@ def stepAll (st : St) (cmd : List String) (got : String) : St × Verdict :=
   | none =>
   match stepBsi st cmd got with
   | some r => r
+  | none =>
+  match stepIter st cmd got with
+  | some r => r
   | none => (st, if got.startsWith "skip" then none else some "skip")
 
 def pureQueries : List String :=
   ["card", "empty", "has", "min", "max", "rank", "sel", "cir", "iwi", "eq", "toarr", "toexarr", "nv", "pv", "nav", "pav",
-   "andcard", "orcard", "isect", "wf", "size", "ser", "wrfail", "trunc", "chkeq", "dump", "dig", "kern", "kernwf", "popcnt", "dense", "densechk", "safe", "zdetach", "zsame"]
+   "andcard", "orcard", "isect", "wf", "size", "ser", "wrfail", "trunc", "chkeq", "dump", "dig", "kern", "kernwf", "popcnt", "dense", "densechk", "safe", "zdetach", "zsame",
+   "hasnext", "peek?", "peek!", "iterate", "values", "backward", "unset", "ranges"]
 
 partial def loop (script go : IO.FS.Stream) (st : St) (lineNo : Nat) (fails : Nat) : IO Nat := do
   let l ← script.getLine
